@@ -152,6 +152,16 @@ def _check_filter(item: dict, res: List[dict]) -> None:
 
         st, sql = tv.real_sql(text, dialect)
         st_a, sql_a = tv.real_sql(text, dialect, ALIAS)
+        if not item.get("mutant"):
+            for al, fresh in ((None, (st, sql)), (ALIAS, (st_a, sql_a))):
+                wr = tv.reuse_check(text, dialect, al, fresh)
+                if wr is None:
+                    emit("reuse", "discharged", nontrivial=False)
+                else:
+                    wr["term"] = term
+                    emit("reuse", "violation", witness=wr,
+                         what=f"a visitor instance that had translated {wr['calls_before']} other filters renders the filter as "
+                              f"{wr['reused_visitor'][1]!r}, a fresh one as {wr['fresh_visitor'][1]!r}")
         if st != "ok":
             emit("accept", st, why=sql)
             if st_a == "ok":
@@ -333,6 +343,8 @@ def classify(r: dict) -> str:
         if any(x[0] == "dur" for x in G.subterms(r["term"])) and k == "missing-operand":
             return "empty-duration-renders-nothing"
         return "ill-formed:" + k
+    if ob == "reuse":
+        return "visitor-instance-reuse"
     if ob == "alias":
         return "alias"
     if "like-literal-quote" in f:
@@ -518,6 +530,12 @@ def main() -> int:
 
 def replay(data: dict) -> int:
     """Re-run one replay file on the live visitors.  Returns 1 if the counterexample still reproduces, 0 if not."""
+    if "history" in data["witness"]:
+        w = data["witness"]
+        res = tv.replay_history(w["history"], w["dialect"], w.get("alias"))
+        print(("REPRODUCED: " if res["reproduced"] else "not reproduced: ") + f"after {len(w['history']) - 1} earlier calls the "
+              f"instance renders {w['filter']!r} as {res['last']}, a fresh visitor as {res['fresh']}")
+        return 1 if res["reproduced"] else 0
     still, what = replay_known({"witness": data["witness"]})
     print(("REPRODUCED: " if still else "not reproduced: ") + what)
     return 1 if still else 0
